@@ -554,3 +554,6 @@ def run(ctx, led):
     run_rule(led, "U15", "READD: loops that copy nogood watchers back run to the number of watchers", watchrules.readd, ctx)
     run_rule(led, "U16", "routing TABLE of conflict analysis (root facts dropped, current level / non-decisions resolved, the rest learned)", u16, ctx)
     run_rule(led, "U17", "learned nogood ordered by trail position, backjump level = level of the second predicate, loop bound per analysis mode", u17, ctx)
+    from . import minimiser
+    run_rule(led, "U18", "semantic minimiser: every folding step maps the values a record stands for to exactly those satisfying the folded predicate (decided on all records of a 5-value window)", minimiser.steps_exact, ctx)
+    run_rule(led, "U19", "semantic minimiser: the emitted predicates describe the record exactly relative to the root domain; holes leave the bounds before redundant holes are dropped", minimiser.emission_exact, ctx)
